@@ -54,15 +54,17 @@ type job struct {
 	Buf              int
 	ChName           string
 	ChSize, ChZeroAt int
+	ChSplit          int
+	ChRnd            uint64
 	ChHalves, ChEOF  bool
 }
 
 func (j job) chunk() chunking {
-	return chunking{name: j.ChName, size: j.ChSize, halves: j.ChHalves, eofWithData: j.ChEOF, zeroAt: j.ChZeroAt}
+	return chunking{name: j.ChName, size: j.ChSize, halves: j.ChHalves, eofWithData: j.ChEOF, zeroAt: j.ChZeroAt, splitAt: j.ChSplit, rnd: j.ChRnd}
 }
 
 func fragJob(path []int, bs int, ch chunking) job {
-	return job{Op: "frag", Path: path, Buf: bs, ChName: ch.name, ChSize: ch.size, ChZeroAt: ch.zeroAt, ChHalves: ch.halves, ChEOF: ch.eofWithData}
+	return job{Op: "frag", Path: path, Buf: bs, ChName: ch.name, ChSize: ch.size, ChZeroAt: ch.zeroAt, ChHalves: ch.halves, ChEOF: ch.eofWithData, ChSplit: ch.splitAt, ChRnd: ch.rnd}
 }
 
 type result struct {
